@@ -171,3 +171,107 @@ Proof.
   eapply Quiet_qv; [|apply Quiet_clear; exact Q3]. reflexivity.
 Qed.
 End QuietExec.
+
+(* ---------------------------------------------------------------------------------------------------------------- *)
+(* C07 / C10, timing: the auto-despawn collector has drained its channel whenever the runner returns — an entity whose
+   last signal clone was dropped during a tree is collected before the tree ends *)
+Definition Collected (w : world) : Prop := gc_chan w = [].
+Lemma gc_chan_poll_despawns chan : forall w, gc_chan (fst (poll_despawns chan w)) = gc_chan w.
+Proof.
+  induction chan as [|e r IH]; intros w; cbn [poll_despawns]; [reflexivity|].
+  specialize (IH (w <| desp_tbl := aremove e (desp_tbl w) |>)). destruct (poll_despawns r (w <| desp_tbl := aremove e (desp_tbl w) |>)) as [w1 cs]. exact IH.
+Qed.
+Lemma gc_chan_poll w : gc_chan (fst (poll w)) = gc_chan w.
+Proof.
+  unfold poll. destruct (poll_removals (removal_checkers w) w) as [chk c1].
+  pose proof (gc_chan_poll_despawns (despawn_chan (w <| removal_checkers := chk |>)) ((w <| removal_checkers := chk |>) <| despawn_chan := [] |>)) as H.
+  destruct (poll_despawns _ _) as [w1 c2]. exact H.
+Qed.
+
+Section CollectedExec.
+Variable P : program.
+
+Definition PostG (i : instr) (w w' : world) : Prop :=
+  match i with
+  | IRunner _ _ _ | IRun _ _ _ _ | IAbort _ _ _ | IGC => Collected w'
+  | IPoll | IReplay _ _ _ | IDiscard => Collected w -> Collected w'
+  | IApplyList cs => forallb is_react cs = true -> Collected w -> Collected w'
+  | IApply c => is_react c = true -> Collected w'
+  | _ => True
+  end.
+
+Ltac bind_inv E w1 E1 :=
+  match type of E with
+  | bind ?r _ = Ok _ => destruct r as [w1| |] eqn:E1; cbn [bind] in E; [|discriminate E|discriminate E]
+  end.
+
+Theorem exec_collected : forall fuel i w w', exec P fuel i w = Ok w' -> PostG i w w'.
+Proof.
+  induction fuel as [|f IH]; intros i w w' E; [discriminate E|].
+  destruct i; cbn [exec] in E; unfold PostG; try exact I.
+  - (* IApply *)
+    intros Hr. destruct (react_prepared c w Hr) as (t & su & cl & w1 & EP). rewrite EP in E. exact (IH (IRunner t su cl) w1 w' E).
+  - (* IApplyList *)
+    destruct cs as [|c cs]; [inversion E; subst; intros _ Hq; exact Hq|]. intros Hall Hq. cbn [forallb] in Hall. apply andb_true_iff in Hall. destruct Hall as [Hc Hcs].
+    bind_inv E w1 E1. exact (IH (IApplyList cs) w1 w' E Hcs (IH (IApply c) w w1 E1 Hc)).
+  - (* IRunner *)
+    bind_inv E w1 E1. bind_inv E w2 E2.
+    pose proof (IH IPoll w1 w2 E2 (IH IGC _ w1 E1)) as Q2.
+    assert (Habort : forall n w3, exec P f (IAbort t su cl) (emit (EvAbort t (setup_ticket su) n) w2) = Ok w3 -> Collected (emit (EvExit t (setup_ticket su)) w3)).
+    { intros n w3 E3. exact (IH (IAbort t su cl) _ w3 E3). }
+    destruct (lookup_storage t w2) eqn:EL.
+    + bind_inv E w3 E3. inversion E; subst. eapply Habort; eauto.
+    + bind_inv E w3 E3. inversion E; subst. eapply Habort; eauto.
+    + destruct (N.eqb (counter w) 0).
+      * bind_inv E w3 E3. inversion E; subst. eapply Habort; eauto.
+      * inversion E; subst. exact Q2.
+    + exact (IH (IRun t su cl (counter w)) w2 w' E).
+  - (* IRun *)
+    destruct (run_setup su t (rn_take t su w)) as [w0|] eqn:ES; [|discriminate E].
+    bind_inv E w1 E1. bind_inv E w2 E2. bind_inv E w3 E3. bind_inv E w4 E4. bind_inv E w5 E5. bind_inv E w6 E6. inversion E; subst. clear E.
+    pose proof (IH IGC w1 w2 E2) as Q2.
+    assert (Q3 : Collected w3).
+    { destruct (lookup_storage t w2) eqn:EL.
+      - exact (IH IGC _ w3 E3).
+      - exact (IH IGC _ w3 E3).
+      - inversion E3; subst. exact Q2.
+      - inversion E3; subst. exact Q2. }
+    pose proof (IH IPoll w3 w4 E4 Q3) as Q4.
+    pose proof (IH (IReplay t (buffer w4) []) _ w5 E5 Q4) as Q5.
+    assert (Q6 : Collected w6).
+    { destruct (N.eqb idx 0).
+      - bind_inv E6 w7 E7. inversion E6; subst. exact (IH IDiscard w5 w7 E7 Q5).
+      - inversion E6; subst. exact Q5. }
+    exact Q6.
+  - (* IReplay *)
+    destruct pending as [|b pending].
+    + inversion E; subst. intros Hq. exact Hq.
+    + destruct (N.eqb (b_sys b) t).
+      * bind_inv E w1 E1. intros _. exact (IH (IReplay t pending kept) w1 w' E (IH (IRunner (b_sys b) (b_setup b) (b_cleanup b)) w w1 E1)).
+      * exact (IH (IReplay t pending (kept ++ [b])) w w' E).
+  - (* IDiscard *)
+    destruct (buffer w) as [|b rest] eqn:EB.
+    + inversion E; subst. intros Hq. exact Hq.
+    + bind_inv E w1 E1. intros _. exact (IH IDiscard w1 w' E (IH (IAbort (b_sys b) (b_setup b) (b_cleanup b)) _ w1 E1)).
+  - (* IAbort *)
+    destruct (run_setup su t w) as [w0|] eqn:ES; [|discriminate E]. bind_inv E w1 E1.
+    exact (IH IPoll w1 w' E (IH IGC _ w1 E1)).
+  - (* IGC *)
+    destruct (gc_chan w) as [|e r] eqn:EG; [inversion E; subst; exact EG|]. exact (IH IGC _ w' E).
+  - (* IPoll *)
+    pose proof (gc_chan_poll w) as Hp. pose proof (poll_reacts w) as Hr. destruct (poll w) as [w1 cs] eqn:EP. cbn [fst snd] in *.
+    intros Hq. apply (IH (IApplyList cs) w1 w' E Hr). unfold Collected in *. rewrite Hp. exact Hq.
+Qed.
+
+Theorem collector_has_run_when_a_tree_returns f t su cl w w' : exec P f (IRunner t su cl) w = Ok w' -> gc_chan w' = [].
+Proof. intros E. exact (exec_collected f (IRunner t su cl) w w' E). Qed.
+Theorem collection_drains_the_channel f w w' : exec P f IGC w = Ok w' -> gc_chan w' = [].
+Proof. intros E. exact (exec_collected f IGC w w' E). Qed.
+Theorem collector_has_run_when_a_frame_ends f i bs w w' : exec P f (ITop i (TFrame bs)) w = Ok w' -> gc_chan w' = [].
+Proof.
+  intros E. destruct f as [|f]; [discriminate E|]. cbn [exec] in E.
+  bind_inv E w4 E4. inversion E; subst. clear E. bind_inv E4 w1 E1. bind_inv E4 w2 E2. bind_inv E4 w3 E3. inversion E4; subst. clear E4.
+  exact (exec_collected f IPoll w2 w3 E3 (exec_collected f IGC w1 w2 E2)).
+Qed.
+End CollectedExec.
+
